@@ -3,7 +3,7 @@ implementation-level oracle used to search for a concrete failing input."""
 import re
 
 from . import gen_kzg, gen_pc, gen_c16, gen_c13
-from .oracles import pc_honest, pc_mutations
+from .oracles import pc_honest, pc_mutations, pc_refusals
 
 
 def _names(*prefixes):
@@ -196,5 +196,12 @@ PROPS = {
         "oracles": [oracle_c13],
         "comparators": {"t": cmp_c13_t, "npaths": cmp_c13_t, "ncols": cmp_c13_t},
         "title": "Column openings match the security level",
+    },
+    "C04": {
+        "props_file": "props/C04.v",
+        "flows": [(gen_pc.gen, "c04", 150, 1500)],
+        "oracles": [pc_honest, pc_refusals, lambda c, lo: pc_mutations(c, lo, ("comm_mut", "comm_swap"))],
+        "accept_diffs": ("mut.",),
+        "title": "Degree bounds",
     },
 }
